@@ -383,6 +383,17 @@ def _damage(path: Path, kind):
         path.write_bytes(b"\x13garbage-not-a-shard" * 11)
 
 
+def _tfrecord_rejects(path: Path, comp) -> bool:
+    """Independent probe: does TensorFlow's TFRecord reader reject the file?"""
+    import tensorflow as tf
+    try:
+        for _ in tf.data.TFRecordDataset([str(path)], compression_type=comp):
+            pass
+    except Exception:  # noqa: BLE001
+        return True
+    return False
+
+
 def check_damage(ctx):
     """C07: a missing / emptied / garbage shard raises within bounded time in
     every interface (never a hang, never a silent skip)."""
@@ -395,6 +406,7 @@ def check_damage(ctx):
     kinds = ["deleted", "emptied", "garbage"]
     positions = [0, 1, -1] if tier != "quick" else [1]
     n_eval = 0
+    n_skipped = 0
     fails = []
     with C.tmpdir() as tmp:
         for fmt, comp in fmts:
@@ -406,6 +418,16 @@ def check_damage(ctx):
                     shards = C.tree_shards(root, "train")
                     victim = root / shards[pos][0]["file_infos"][0]["file_path"]
                     _damage(victim, kind)
+                    if fmt == "tfrec" and kind != "deleted" and \
+                            not _tfrecord_rejects(victim, comp):
+                        # the property quantifies over content "that the codec
+                        # or decoder rejects": a zero-byte uncompressed TFRecord
+                        # file IS a valid file of zero records for the
+                        # TFRecord decoder, so it is not a damaged shard in the
+                        # sense of C07 (the first version of this check
+                        # demanded an error here: a false alarm, see DESIGN.md)
+                        n_skipped += 1
+                        continue
                     d = Dataset(root)
                     for iface in _ifaces(fmt, tier):
                         for shuffle in (0, 5):
@@ -426,8 +448,6 @@ def check_damage(ctx):
                                 continue
                             if iface == "rust":
                                 key = f"rust-damaged-shard:{kind}"
-                            elif fmt == "tfrec" and kind == "emptied":
-                                key = "tfrec-emptied-shard:"
                             fails.append(C.result(
                                 "damaged shard must raise", False,
                                 function="imap_unordered" if shuffle and
@@ -450,7 +470,9 @@ def check_damage(ctx):
         "damaged shard (deleted / emptied / garbage; first, middle, last) "
         "raises in every interface, shuffled and not", not fails,
         evaluations=n_eval,
-        bound=f"formats {fmts}, positions {positions}, watchdog 40 s"))
+        bound=f"formats {fmts}, positions {positions}, watchdog 40 s; "
+              f"{n_skipped} tfrec cases skipped because the TFRecord decoder "
+              f"itself accepts the damaged file"))
     if fails:
         out[-1]["ok"] = True  # the individual failures above carry the verdict
     return out
